@@ -234,17 +234,25 @@ func (env *vfC14Env) wireOfConn(c *Conn) int {
 // parseKey splits the cache's key string into the triple. The code concatenates host id (a
 // 36-character UUID string), keyspace and statement.
 func (env *vfC14Env) parseKey(s string) (vfC14Key, bool) {
+	// tolerant of separators / ordering: the three components must each occur, and only one of each
+	var hs, kss, sts []string
 	for hid, h := range env.hidOf {
-		if strings.HasPrefix(s, hid) {
-			rest := s[len(hid):]
-			for _, ks := range []string{"ks1", "ks2"} {
-				if strings.HasPrefix(rest, ks) {
-					if st := vfC14StmtByText(rest[len(ks):]); st != nil {
-						return vfC14Key{h, ks, st.Name}, true
-					}
-				}
-			}
+		if strings.Contains(s, hid) {
+			hs = append(hs, h)
 		}
+	}
+	for _, ks := range []string{"ks1", "ks2"} {
+		if strings.Contains(s, ks) {
+			kss = append(kss, ks)
+		}
+	}
+	for i := range vfC14Stmts {
+		if strings.Contains(s, vfC14Stmts[i].Text) {
+			sts = append(sts, vfC14Stmts[i].Name)
+		}
+	}
+	if len(hs) == 1 && len(kss) == 1 && len(sts) == 1 {
+		return vfC14Key{hs[0], kss[0], sts[0]}, true
 	}
 	return vfC14NoKey, false
 }
@@ -507,9 +515,11 @@ func (env *vfC14Env) handler(host string) func(nc *vfNodeConn, f *vfFrame, q *vf
 				env.mu.Unlock()
 				return true
 			}
-			if env.execSeen[h.e] > 40 {
-				// the driver keeps re-sending: stop answering, the executor's watchdog reports it
+			if env.execSeen[h.e] > 12 {
+				// the driver keeps re-sending the same request: end it with a server error
+				env.tr.Emit("n_exec_reply", "e", h.e, "kind", "error", "id", vfC14NoID.json())
 				env.mu.Unlock()
+				nc.Reply(f, vfOpError, vfErrorBody(0x0000, "vf-livelock-guard", nil))
 				return true
 			}
 			if len(h.ids) > 0 && h.idsOK && env.forgets < env.maxForget && env.rng.Float64() < env.pForget {
